@@ -278,6 +278,54 @@ theorem runSeq_buffer_irrelevant (fuel : Nat) :
     simp only [runSeq, List.map_cons]
     rw [runSeq_buffer_irrelevant fuel us (runUse fuel u buf).2, runUse_buffer fuel u buf]
 
+/-- the tail-recursive collector the driver runs is `collect`. -/
+theorem collectAcc_eq_collect (fuel : Nat) :
+    ∀ (n : Nat) (it : Iter F) (acc : List (SliderEvent F)),
+      (collectAcc fuel n it acc).map (·.1) = (collect fuel n it).map (acc.reverse ++ ·)
+  | 0, _, _ => rfl
+  | n + 1, it, acc => by
+    rw [collectAcc, collect_succ]
+    cases h : it.next fuel with
+    | none => rfl
+    | some r =>
+      obtain ⟨o, it'⟩ := r
+      cases o with
+      | none => simp
+      | some ev =>
+        simp only []
+        rw [collectAcc_eq_collect fuel n it' (ev :: acc)]
+        cases collect fuel n it' <;> simp
+
+/-- consuming only `k` events (`Iterator::take(k)`, or dropping the iterator half-way) yields the first `k`
+events of the full stream. -/
+theorem takeAcc_prefix (fuel : Nat) :
+    ∀ (k : Nat) (it : Iter F) (acc evs : List (SliderEvent F)) (N : Nat),
+      collect fuel N it = some evs →
+      (takeAcc fuel k it acc).map (·.1) = some (acc.reverse ++ evs.take k)
+  | 0, _, _, _, _, _ => by simp [takeAcc]
+  | k + 1, it, acc, evs, 0, h => by simp [collect] at h
+  | k + 1, it, acc, evs, N + 1, h => by
+    rw [collect_succ] at h
+    rw [takeAcc]
+    cases hn : it.next fuel with
+    | none => simp [hn] at h
+    | some r =>
+      obtain ⟨o, it'⟩ := r
+      cases o with
+      | none =>
+        simp only [hn, Option.some.injEq] at h
+        subst h; simp
+      | some ev =>
+        simp only [hn] at h
+        cases hc : collect fuel N it' with
+        | none => simp [hc] at h
+        | some evs' =>
+          simp only [hc, Option.map_some, Option.some.injEq] at h
+          subst h
+          simp only []
+          rw [takeAcc_prefix fuel k it' (ev :: acc) evs' N hc]
+          simp
+
 /-! ### spans as a concatenation, repeats -/
 
 /-- `spansFrom` is the concatenation of the per-span lists. -/
@@ -602,5 +650,130 @@ theorem ticks_fuel_suffices (L : OrderedFieldLaws F) (p : Params F) (n : Nat) (h
     rw [← h1] at this
     exact this
   · exact ⟨[], rfl⟩
+
+theorem tickDists_lower (L : OrderedFieldLaws F) (p : Params F) (ht : Scalar.lt (0 : F) p.tickDist = true) :
+    ∀ (fuel : Nat) (d : F) (ds : List F), tickDists p fuel d = some ds →
+      ∀ x ∈ ds, x = d ∨ Scalar.lt d x = true
+  | 0, _, _, h => by simp [tickDists] at h
+  | fuel + 1, d, ds, h => by
+    rw [tickDists] at h
+    split at h
+    · split at h
+      · cases h; simp
+      · cases hrec : tickDists p fuel (d + p.tickDist) with
+        | none => simp [hrec] at h
+        | some ds' =>
+          simp only [hrec, Option.map_some, Option.some.injEq] at h
+          subst h
+          intro x hx
+          rcases List.mem_cons.mp hx with rfl | hx
+          · exact Or.inl rfl
+          · right
+            rcases tickDists_lower L p ht fuel _ ds' hrec x hx with rfl | hlt
+            · exact L.lt_add_pos d _ ht
+            · exact L.lt_trans _ _ _ (L.lt_add_pos d _ ht) hlt
+    · cases h; simp
+
+theorem tickDists_increasing (L : OrderedFieldLaws F) (p : Params F) (ht : Scalar.lt (0 : F) p.tickDist = true) :
+    ∀ (fuel : Nat) (d : F) (ds : List F), tickDists p fuel d = some ds →
+      ds.Pairwise (fun a b => Scalar.lt a b = true)
+  | 0, _, _, h => by simp [tickDists] at h
+  | fuel + 1, d, ds, h => by
+    rw [tickDists] at h
+    split at h
+    · split at h
+      · cases h; exact List.Pairwise.nil
+      · cases hrec : tickDists p fuel (d + p.tickDist) with
+        | none => simp [hrec] at h
+        | some ds' =>
+          simp only [hrec, Option.map_some, Option.some.injEq] at h
+          subst h
+          refine List.Pairwise.cons ?_ (tickDists_increasing L p ht fuel _ ds' hrec)
+          intro x hx
+          rcases tickDists_lower L p ht fuel _ ds' hrec x hx with rfl | hlt
+          · exact L.lt_add_pos d _ ht
+          · exact L.lt_trans _ _ _ (L.lt_add_pos d _ ht) hlt
+    · cases h; exact List.Pairwise.nil
+
+/-- **ticks_chronological** (exact arithmetic, positive length and span duration): inside every span the
+ticks come in strictly increasing time — by increasing distance on even spans, by decreasing distance on
+odd ones. -/
+theorem ticks_chronological (L : OrderedFieldLaws F) (p : Params F) (fuel : Nat) (ds : List F)
+    (h : spanTickDists p fuel = some ds)
+    (hlen : Scalar.lt (0 : F) p.len = true) (hdur : Scalar.lt (0 : F) p.spanDuration = true) (s : Int) :
+    (spanTicks p ds s).Pairwise (fun a b => Scalar.lt a.time b.time = true) := by
+  have hinc : ds.Pairwise (fun a b => Scalar.lt a b = true) := by
+    unfold spanTickDists at h
+    split at h
+    · rename_i hg
+      exact tickDists_increasing L p hg fuel _ ds h
+    · cases h; exact List.Pairwise.nil
+  rw [spanTicks_eq]
+  by_cases hr : isReversed s = true
+  · simp only [hr, if_true]
+    have hrev : ds.reverse.Pairwise (fun a b => Scalar.lt b a = true) := List.pairwise_reverse.mpr hinc
+    refine List.Pairwise.map _ ?_ hrev
+    intro a b hba
+    have h1 := L.div_lt_div_right _ _ _ hlen hba
+    have h2 := L.sub_lt_sub_left _ _ (1 : F) h1
+    have h3 := L.mul_lt_mul_right _ _ _ hdur h2
+    have h4 := L.add_lt_add_left _ _ (spanStart p s) h3
+    simpa [tickEvent, mkTick, hr] using h4
+  · simp only [hr, Bool.false_eq_true, if_false]
+    refine List.Pairwise.map _ ?_ hinc
+    intro a b hab
+    have h1 := L.div_lt_div_right _ _ _ hlen hab
+    have h3 := L.mul_lt_mul_right _ _ _ hdur h1
+    have h4 := L.add_lt_add_left _ _ (spanStart p s) h3
+    simpa [tickEvent, mkTick, hr] using h4
+
+/-! ## Non-vacuity: the hypotheses are satisfiable, on exact rationals (`ratScalar`) -/
+
+section Examples
+attribute [local instance] ratScalar
+
+/-- the `non_even_ticks` unit test of event.rs: start 0, span 1000 ms, velocity 1, tick distance 300,
+length 1000, two spans, junk in the buffer. -/
+def exIter : Option (Iter Rat) := Iter.new (0 : Rat) 1000 1 300 1000 2 [headEvent ⟨7, 7, 7, 7, 7, 7⟩]
+
+def exParams : Params Rat :=
+  { startTime := 0, spanDuration := 1000, minDistFromEnd := 10, tickDist := 300, len := 1000, spanCount := 2 }
+
+example : exIter = some ⟨exParams, [], .head⟩ := by decide +kernel
+
+example : spanTickDists exParams 5 = some [300, 600, 900] := by decide +kernel
+
+/-- hypotheses of `stream_shape` hold and its conclusion is the expected 10-event stream
+(ticks at 300/600/900 ms, repeat at 1000, mirrored ticks at 1100/1400/1700, last tick 1964, tail 2000). -/
+example : (collect 5 11 ⟨exParams, [], .head⟩).map (·.map fun e => (e.kind, e.spanIdx, e.time, e.pathProgress)) =
+    some [(.head, 0, 0, 0), (.tick, 0, 300, 3/10), (.tick, 0, 600, 6/10), (.tick, 0, 900, 9/10),
+          (.repeatPt, 0, 1000, 1), (.tick, 1, 1100, 9/10), (.tick, 1, 1400, 6/10), (.tick, 1, 1700, 3/10),
+          (.lastTick, 1, 1964, 36/1000), (.tail, 1, 2000, 0)] := by decide +kernel
+
+example : collect 5 11 ⟨exParams, [], .head⟩ = eventsSpec exParams 5 := by decide +kernel
+
+/-- too little fuel: reported, not defaulted. -/
+example : collect 3 100 ⟨exParams, [], .head⟩ = none := by decide +kernel
+
+/-- `ticks_fuel_suffices` applies with `n = 4`: 1000 < 4·300. -/
+example : ∃ ds, spanTickDists exParams 4 = some ds :=
+  ticks_fuel_suffices rat_laws exParams 4 (by omega) (by decide +kernel)
+
+/-- `repeats_all_present`: tick distance 0, three spans → head, two repeats, last tick, tail. -/
+example : (collect 0 6 ⟨{ exParams with tickDist := 0, spanCount := 3 }, [], .head⟩).map (·.map (·.kind)) =
+    some [.head, .repeatPt, .repeatPt, .lastTick, .tail] := by decide +kernel
+
+/-- a negative length: `new` panics (`none`). -/
+example : Iter.new (0 : Rat) 1000 1 300 (-5) 2 [] = none := by decide +kernel
+
+/-- a half-consumed iterator leaves pending events behind; the next one is unaffected. -/
+example :
+    let u1 : Use Rat := ⟨0, 1000, 1, 300, 1000, 2, some 2⟩
+    let u2 : Use Rat := ⟨0, 1000, 1, 0, 1000, 1, none⟩
+    (runUse 5 u1 []).2.length = 3 ∧
+    ((runSeq 5 [u1, u2] []).1.map fun o => match o with | .events evs => evs.length | _ => 0) = [2, 3] := by
+  decide +kernel
+
+end Examples
 
 end Rosu.C20
